@@ -269,12 +269,13 @@ PROPS['C07'] = P(
      'persistent_reactors_are_never_collected', 'collected_only_if_signalled_everywhere', 'signals_come_only_from_refcounted_registration',
      'signal_table_is_well_formed', 'clone_adds_one_reference_partial',
      'drop_takes_one_reference_partial', 'last_reference_sends_the_reactor_once_partial', 'dropping_a_handle_despawns_nothing_partial',
-     'collection_drains_the_channel_partial', 'despawn_drops_the_system_state_partial'],
+     'collection_drains_the_channel_partial', 'despawn_drops_the_system_state_partial',
+     'dropped_reactors_are_collected_by_the_end_of_the_tree', 'dropped_reactors_are_collected_by_the_end_of_the_frame'],
     ['lifetime', 'once', 'dispatch', 'mixed'], 'lifetime', determined=False,
     assumes=['PARTIAL: step-level theorems for all states; the global reference count (live references = registrations + in-flight registration commands + pending despawn reactions, at every point of every run), hence "alive exactly as long as ..., collected by the first collection after ...", is not a theorem: it rests on the correspondence (live entities, state drops and table sizes compared after every top-level op, collections at arbitrary points) ',
              'the signal / channel / collector are verified against the real AutoDespawner for every interleaving in C10'])
 MANIFEST_TEXT['C07'] = (
- "Partial proof. Machine-checked for whole runs: in every reachable state the collector's channel and the signal table hold only entities for which an auto-despawn signal was prepared, and no command other than a registration in the Cleanup / Revokable modes prepares one — a reactor only ever registered in persistent mode is never collected; the signal table is well formed in every reachable state (positive counts, distinct ids below the id counter). Machine-checked for all states: a persistent registration carries no signal and changes no state; an auto-despawn handle is one reference to one signal (clone +1, drop -1), the drop of the last reference sends the reactor entity to the collector exactly once, and dropping a handle despawns nothing; a collection drains the channel completely, including what its own despawns add, and every collected entity is dead afterwards; despawning a reactor drops its boxed callback. The global reference count over whole runs is not a theorem: it is checked by differential runs of the lifetime profile (all three modes, empty bundles, bundles naming dead entities, every order of revoke / fire / despawn / collect) comparing live entities, system-state drops and table sizes after every top-level op. The signal and collector are verified against the real AutoDespawner in C10.",
+ "Partial proof. Machine-checked for whole runs: in every reachable state the collector's channel and the signal table hold only entities for which an auto-despawn signal was prepared, and no command other than a registration in the Cleanup / Revokable modes prepares one — a reactor only ever registered in persistent mode is never collected; the signal table is well formed in every reachable state (positive counts, distinct ids below the id counter); collection is timely: whenever the system-command runner returns (run, abort or postponement) and at the end of every frame the collector's channel is empty, so a reactor whose last reference was dropped during a tree is despawned before the tree ends. Machine-checked for all states: a persistent registration carries no signal and changes no state; an auto-despawn handle is one reference to one signal (clone +1, drop -1), the drop of the last reference sends the reactor entity to the collector exactly once, and dropping a handle despawns nothing; a collection drains the channel completely, including what its own despawns add, and every collected entity is dead afterwards; despawning a reactor drops its boxed callback. The global reference count over whole runs is not a theorem: it is checked by differential runs of the lifetime profile (all three modes, empty bundles, bundles naming dead entities, every order of revoke / fire / despawn / collect) comparing live entities, system-state drops and table sizes after every top-level op. The signal and collector are verified against the real AutoDespawner in C10.",
  "Trusted: Coq kernel; model faithfulness (differential); Bevy semantics as modelled. Partial: the global reference count (no leak / no premature despawn over whole runs) is correspondence only.",
  "Coq proof of the step-level behaviour (partial) + model/implementation correspondence on live entities and state drops", "DESIGN.md §5 C07")
 
